@@ -181,6 +181,7 @@ type run struct {
 	depth         int
 	incomplete    string
 	inSubst       map[string]int // substituted functions whose replacement is executing (replacement may call the original)
+	substMu       sync.Mutex     // guards inSubst: threads parked inside a replacement unwind concurrently when the path is killed
 	reached       []string
 	observed      []obs
 	tags          map[string]string
